@@ -231,6 +231,24 @@ CHECKS.update({
         design="DESIGN.md §3 C16"),
 })
 
+CHECKS.update({
+    "C19": dict(
+        technique="TLA+ lexer state machine for Cypher text (FimCypher: one step per character) with well-formedness predicates on "
+                  "the token sequence and a history state 'operation instance -> statement shape'; lexer/escaping laws checked by "
+                  "TLC over all strings of an adversarial alphabet; every public operation of the real Neo4j backend classes run "
+                  "against a stand-in driver, captured (statement, parameters) judged by Trace_FimCypher",
+        text="No server needed: the real Neo4jPropertyGraph / Neo4jGraphImporter / Neo4jCBMGraph / Neo4jASM / Neo4jADMGraph are "
+             "constructed over a recording driver that answers with canned results (3 personas to drive both sides of the result "
+             "handling); 61 operations x 3 personas x 3 value sets (benign; quotes, backslashes, braces, dollars; newlines, keywords, "
+             "trailing backslash). TLC decides for every captured statement: literals terminated, brackets balanced, no template "
+             "left-over, no comment opener, every $parameter supplied, every referenced variable bound; and that the token shape "
+             "of every statement of an operation instance is the same for all value sets (values reach the driver as parameters "
+             "or inside correctly escaped literals).",
+        note="Cypher is scanned, not parsed: the bound-variable check covers x.Prop and f(x) references only; statements from the "
+             "rules/index JSON files are included; queries run inside Neo4j by APOC (the exported inner query) are checked as text.",
+        design="DESIGN.md §3 C19"),
+})
+
 PENDING = {}
 
 
